@@ -31,8 +31,8 @@ type PEngine struct {
 	NonNegFields map[string]map[string]bool                // class -> excluded functions; fields assumed >= 0 once proven
 	NonNilIn     func(fn *ssa.Function, class string) bool // gating facts: field class is non-nil inside fn
 	EnumConv     bool
-	pureMemo map[*ssa.Function]bool
-	nnConds  map[*ssa.Function][]condAt
+	pureMemo     map[*ssa.Function]bool
+	nnConds      map[*ssa.Function][]condAt
 }
 
 func NewPEngine(p *Prog, o *OEngine) *PEngine {
